@@ -75,6 +75,11 @@ def units(tier, seed):
     for k in (2, 3):
         for s0 in lat900:
             us.append({"kind": "main", "lattice": [900, 10800], "k": k, "s0": s0, "valmode": "valid", "gaps": GAPS_ODD, "seed": seed})
+    # size ladder: number of observations around powers of two, regular and irregular spacing
+    ladder = [7, 8, 9, 15, 16, 17, 31, 32, 33, 63, 64, 65, 127, 128, 129, 255, 256, 257] + \
+        ([] if tier == "quick" else [511, 512, 513, 1023, 1024, 1025])
+    for k in ladder:
+        us.append({"kind": "ladder", "k": k, "seed": seed})
     # long spans: the period index times the period length crosses 2**31 after 68 years of half-hours
     us.append({"kind": "longspan", "years": 71, "P": 1800, "rainfall": 0})
     us.append({"kind": "longspan", "years": 71, "P": 1800, "rainfall": 1})
@@ -234,6 +239,29 @@ def run_case(ctx, dutils, stamps, vals, P, rainfall, G, variant=None, judged_sam
     return out
 
 
+def check_value_layouts(ctx, dutils, stamps, vals, P, G):
+    se = make_series(stamps, vals)
+    try:
+        ref = dutils.var2h(se, nbsec_per_period=P, maxgapsec=G).values
+    except Exception:
+        return
+    variants = [("float32", se.astype(np.float32)), ("reversed-then-sorted", se.iloc[::-1].sort_index()),
+                ("named", se.rename("flow")), ("copy-of-view", pd.Series(se.values[::1], index=se.index))]
+    for lname, s2 in variants:
+        case = {"stamps": list(stamps), "vals": [None if math.isnan(v) else v for v in vals], "P": P, "rainfall": 0, "G": G,
+                "variant": {"layout": lname}}
+        try:
+            out = dutils.var2h(s2, nbsec_per_period=P, maxgapsec=G).values
+        except Exception as e:
+            ctx.case(True, outcome="raise")
+            ctx.count("layout.rejected.%s" % lname)
+            continue
+        ctx.case(True, outcome=out.tobytes())
+        ctx.count("layout.accepted.%s" % lname)
+        if out.shape != ref.shape or not np.allclose(out, ref, rtol=1e-12, atol=0, equal_nan=True):
+            ctx.violation("var2h:layout=%s" % lname, case, "same series given as %s: %s vs %s" % (lname, out[:6].tolist(), ref[:6].tolist()))
+
+
 def main_cases(unit):
     step, top = unit["lattice"]
     lattice = list(range(0, top + 1, step))
@@ -316,9 +344,46 @@ def check_longspan(ctx, dutils, unit):
                       observed=float(out[bad[0]]), expected=exp)
 
 
+def ladder_cases(unit):
+    k, seed = unit["k"], unit["seed"]
+    pat = [1.0, 2.5, 0.0, 1.0, 2.5]
+    for spacing in ("600", "5400", "irregular"):
+        if spacing == "irregular":
+            steps = [700, 1300, 600, 2500, 300]
+            stamps, t = [], 900
+            for i in range(k):
+                stamps.append(t)
+                t += steps[(i + seed) % len(steps)]
+        else:
+            stamps = [300 + int(spacing) * i for i in range(k)]
+        for hole in (None, k // 2):
+            vals = [pat[(i + seed) % len(pat)] for i in range(k)]
+            if hole is not None:
+                vals[hole] = float("nan")
+            for P in (1800, 3600):
+                if stamps[-1] - stamps[0] < 2 * P:
+                    continue
+                for rainfall in (0, 1):
+                    yield tuple(stamps), vals, P, rainfall, 432000
+
+
 def run_unit(unit, ctx):
     from hydrodiy.data import dutils
     first = True
+    if unit["kind"] == "ladder":
+        for i, (stamps, vals, P, rainfall, G) in enumerate(ladder_cases(unit)):
+            if not ctx.sup.begin(i):
+                continue
+            if first:
+                ctx.case(False, n=0, sample={"stamps": list(stamps[:6]) + ["..."], "k": unit["k"], "P": P, "rainfall": rainfall, "G": G})
+                first = False
+            ctx.count("ladder.series")
+            run_case(ctx, dutils, stamps, vals, P, rainfall, G)
+            # layout variants of the values (exactly representable): float32, int-valued object, read-only
+            if rainfall == 0 and P == 3600:
+                check_value_layouts(ctx, dutils, stamps, vals, P, G)
+            ctx.sup.end()
+        return
     if unit["kind"] == "longspan":
         if ctx.sup.begin(0):
             ctx.case(False, n=0, sample=dict(unit))
@@ -366,6 +431,12 @@ def run_unit(unit, ctx):
 
 
 def crash_violation(unit, idx, status, stderr):
+    if unit["kind"] == "ladder":
+        cases = list(ladder_cases(unit))
+        st, vals, P, rf, G = cases[idx] if idx is not None and idx < len(cases) else ((), [], 0, 0, 0)
+        return ("var2h:%s:ladder" % ("hang" if "timeout" in status else "crash"),
+                {"stamps": list(st), "vals": [None if math.isnan(v) else v for v in vals], "P": P, "rainfall": rf, "G": G, "variant": None},
+                "the interpreter did not survive var2h on a %d-observation series: %s" % (len(st), status))
     if unit["kind"] == "longspan":
         kind = "hang" if "timeout" in status else "crash"
         return ("var2h:longspan:%s" % kind, dict(unit), "the interpreter did not survive var2h on a %d-year daily series: %s" % (unit["years"], status))
@@ -389,6 +460,9 @@ def replay(case):
         return [v for lst in ctx.violations.values() for v in lst]
     vals = [float("nan") if v is None else v for v in case["vals"]]
     var = case.get("variant")
+    if var and var.get("layout"):
+        check_value_layouts(ctx, dutils, case["stamps"], vals, case["P"], case["G"])
+        return [v for lst in ctx.violations.values() for v in lst]
     if var and var.get("all"):
         for v in [None] + VARIANTS:
             run_case(ctx, dutils, case["stamps"], vals, case["P"], case["rainfall"], case["G"], variant=v)
